@@ -22,7 +22,7 @@ func TestC14(t *testing.T) {
 	mon.Main(t, mon.Check{
 		ID:    "C14",
 		Level: "exploration",
-		Rule: fmt.Sprintf("case kinds: (E) exhaustive small domain: for every maxChunkSize in {0,1..%d} and every first length a in 0..%d, all (b,c) in (0..%d)^2 are sent as the message triple (a,b,c) back to back over one real connection (all sequences of 1-3 messages of lengths 0..3M+1 occur as sub-sequences), alternating directions; (R) random payloads up to 1 MiB with chunk sizes {1,7,1000,32768} with and without link faults; (T) deadline cases: SetRecvTimeout / SetSendTimeout chosen so that the timer fires between two chunks of one message (a link delay is placed before a chosen chunk / the window is made full after a chosen chunk by delaying ACKs), the timed-out call is retried until it succeeds. Oracle: the list of Recv results equals, in number and bytes, the list of messages whose Send succeeded. Non-trivial = a case in which at least one message spanned >=2 chunks or was empty; distinct = (kind, chunk size, lengths / timeout placement).", c14M, 3*c14M+1, 3*c14M+1),
+		Rule:  fmt.Sprintf("case kinds: (E) exhaustive small domain: for every maxChunkSize in {0,1..%d} and every first length a in 0..%d, all (b,c) in (0..%d)^2 are sent as the message triple (a,b,c) back to back over one real connection (all sequences of 1-3 messages of lengths 0..3M+1 occur as sub-sequences), alternating directions; (R) random payloads up to 1 MiB with chunk sizes {1,7,1000,32768} with and without link faults; (T) deadline cases: SetRecvTimeout / SetSendTimeout chosen so that the timer fires between two chunks of one message (a link delay is placed before a chosen chunk / the window is made full after a chosen chunk by delaying ACKs), the timed-out call is retried until it succeeds. Oracle: the list of Recv results equals, in number and bytes, the list of messages whose Send succeeded. Non-trivial = a case in which at least one message spanned >=2 chunks or was empty; distinct = (kind, chunk size, lengths / timeout placement).", c14M, 3*c14M+1, 3*c14M+1),
 		Assumptions: []string{
 			"one sender and one receiver goroutine per direction (concurrent Send calls interleave chunks by design)",
 			"the exhaustive slice enumerates lengths and chunk sizes completely, not schedules",
